@@ -63,6 +63,8 @@ pub struct Outcome {
     pub counts: [u32; 5],
     pub leaked: u32,
     pub max_reloc: u32,
+    /// user-code event counts of every op (last entry: the final drop)
+    pub counts_per_op: Vec<[u32; 5]>,
 }
 
 #[derive(Debug, Clone)]
@@ -630,3 +632,21 @@ pub enum Flow {
     Injected,
 }
 
+
+/// Format-agnostic oracle for the Debug output of iterators and drains (whose text the crate does
+/// not document): formatting may only look at the elements that are still to be produced.
+pub(crate) fn debug_touches_only(what: &str, remaining: &[u32], f: impl FnOnce() -> String) -> R<()> {
+    let saved = ledger::take_touched();
+    let text = f();
+    let touched = ledger::take_touched();
+    ledger::with(|l| l.touched = saved);
+    for t in touched {
+        if !remaining.contains(&t) {
+            return Err(format!(
+                "formatting {what} with {{:?}} looked at element id={t}, which is not one of the elements it still has to produce {:?} (output: {text})",
+                remaining
+            ));
+        }
+    }
+    Ok(())
+}
